@@ -48,11 +48,37 @@ thread_local! {
 /// taken on every allocation) before the library initialises, so worker threads with their own
 /// in-memory databases do not serialise on it.
 pub fn configure_sqlite() {
-    if std::env::var("C18_MEMSTATUS").is_ok() {
-        return;
+    static ONCE: std::sync::Once = std::sync::Once::new();
+    ONCE.call_once(|| {
+        // SAFETY: called once, before any connection is opened (SQLite is not yet initialised).
+        let rc = unsafe { rusqlite::ffi::sqlite3_config(rusqlite::ffi::SQLITE_CONFIG_MEMSTATUS, 0i32) };
+        if rc != rusqlite::ffi::SQLITE_OK && std::env::var("C18_TRACE").is_ok() {
+            eprintln!("C18: sqlite3_config(MEMSTATUS) returned {rc}");
+        }
+    });
+}
+
+/// The bundled SQLite shares one page-cache group (one mutex) between all connections of the
+/// process, so more than a few concurrent users only queue on it. Harness tuning only: at most
+/// this many worker threads are inside SQLite at once.
+const SQLITE_PERMITS: usize = 4;
+static PERMITS: (std::sync::Mutex<usize>, std::sync::Condvar) = (std::sync::Mutex::new(SQLITE_PERMITS), std::sync::Condvar::new());
+
+struct Permit;
+impl Permit {
+    fn take() -> Permit {
+        let mut n = PERMITS.0.lock().unwrap();
+        while *n == 0 {
+            n = PERMITS.1.wait(n).unwrap();
+        }
+        *n -= 1;
+        Permit
     }
-    unsafe {
-        let _ = rusqlite::ffi::sqlite3_config(rusqlite::ffi::SQLITE_CONFIG_MEMSTATUS, 0i32);
+}
+impl Drop for Permit {
+    fn drop(&mut self) {
+        *PERMITS.0.lock().unwrap() += 1;
+        PERMITS.1.notify_one();
     }
 }
 
@@ -68,6 +94,7 @@ const MIGRATION_TABLES: [&str; 8] = [
 ];
 
 fn with_db<R>(f: impl FnOnce(&mut Connection, AccountUuid, LocalNetwork) -> R) -> R {
+    let _permit = Permit::take();
     DB.with(|cell| {
         let mut g = cell.borrow_mut();
         if g.is_none() {
